@@ -189,6 +189,49 @@ def generated_plus_settings(R, rng, tier):
                                      "signature": None})
 
 
+def default_blocks(R, rng, tier):
+    """A settings block that spells out a plugin's own defaults (what gen_config returns for its config key), alone or
+    next to the other blocks, in YAML and in TOML: the findings are those of a run without any config ("settings given for
+    one plugin replace that plugin's defaults only" - and equal settings replace them by themselves)."""
+    import importlib
+    import yaml
+    from bandit.core import extension_loader
+    d = os.path.join(impl.scratch(), "c13d")
+    os.makedirs(d, exist_ok=True)
+    keys = {}
+    for pl in extension_loader.MANAGER.plugins:
+        k = getattr(pl.plugin, "_takes_config", None)
+        mod = importlib.import_module(pl.plugin.__module__)
+        if k and hasattr(mod, "gen_config") and k not in keys:
+            keys[k] = mod.gen_config(k)
+    tgt = os.path.join(d, "prog.py")
+    open(tgt, "w").write(PROG + "import os, ssl, hashlib\nsubprocess.call(['ls', '-l'])\nos.system('ls -l')\nos.execl('/bin/ls', 'ls')\nos.popen('ls')\n"
+                         "os.spawnl(0, 'ls')\nsubprocess.Popen(['ls'], shell=False)\nos.execvp('ls', ['ls'])\nopen('/tmp/zz_f')\n"
+                         "ssl.wrap_socket(ssl_version=ssl.PROTOCOL_SSLv3)\nfrom Crypto.PublicKey import RSA\nRSA.generate(1024)\n"
+                         "try:\n    zz_h()\nexcept Exception:\n    pass\n")
+    base = climain.run_main(["-q", "-f", "json", tgt])
+    blocks = [{k: v} for k, v in sorted(keys.items())] + [dict(keys)]
+    for blk in blocks:
+        for fmt in ("yaml", "toml"):
+            cf = os.path.join(d, "defaults." + fmt)
+            try:
+                if fmt == "yaml":
+                    yaml.safe_dump(blk, open(cf, "w"))
+                else:
+                    open(cf, "w").write(to_toml(blk))
+            except Exception:
+                continue
+            b = climain.run_main(["-q", "-f", "json", "-c", cf, tgt])
+            R.case(("default-block", tuple(sorted(blk)), fmt), nontrivial=True, sample={"blocks": sorted(blk), "format": fmt, "exit": b["exit"]})
+            R.count("default-block")
+            if b["exception"] or b["exit"] != base["exit"] or results(b) != results(base):
+                rb, ra = results(b) or [], results(base) or []
+                R.violations.append({"what": "a %s config that only spells out the defaults of %s changes the findings" % (fmt, sorted(blk)),
+                                     "input": {"config": open(cf).read()[:600], "program": open(tgt).read()},
+                                     "observed": {"extra": [x for x in rb if x not in ra][:6], "missing": [x for x in ra if x not in rb][:6],
+                                                  "exception": b["exception"]}, "signature": None})
+
+
 def contradictions(R, rng, tier):
     """A test both selected and skipped is rejected (status 2, diagnostic) wherever the two halves come from."""
     import yaml
@@ -484,6 +527,7 @@ def run(R, replay=None):
     contradictions(R, rng, R.tier)
     ini_equivalence(R, rng, R.tier)
     generated_plus_settings(R, rng, R.tier)
+    default_blocks(R, rng, R.tier)
     ini_booleans(R, rng, R.tier)
     model_corr(R, rng, R.tier)
     R.disagreements_checked = R.evaluations
